@@ -671,6 +671,16 @@ func Equivalences(d *Dialect) []Edit {
 			Edit{"index_type_btree_explicit", nil, func(s *schema.Schema) { I(T(s, "t"), "idx_a").AddAttrs(&mysql.IndexType{T: "BTREE"}) }, nil},
 			Edit{"generated_name_index_left_unnamed", nil, func(s *schema.Schema) { I(T(s, "t"), "c").Name = "" }, nil},
 			// the server's default engine spelled out on a table that did not state one.
+			// a column that spells only its collation (the character set follows from it) or only its
+			// character set (whose default collation it has) is the same column.
+			Edit{"col_collation_without_charset", nil, func(s *schema.Schema) {
+				c := C(T(s, "t"), "b")
+				c.Attrs = dropAttr[*schema.Charset](c.Attrs)
+			}, nil},
+			Edit{"col_charset_without_collation", nil, func(s *schema.Schema) {
+				c := C(T(s, "t"), "b")
+				c.Attrs = dropAttr[*schema.Collation](c.Attrs)
+			}, nil},
 			Edit{"engine_default_spelled_out", nil, func(s *schema.Schema) { T(s, "p").AddAttrs(&mysql.Engine{V: "InnoDB"}) }, nil},
 			Edit{"engine_case", nil, func(s *schema.Schema) {
 				t := T(s, "t")
